@@ -7,7 +7,7 @@ c09 = importlib.import_module("props.c09")
 def run(res, tier, seed, replay):
     res.corr_diffs, res.unknown = [], []
     fam = json.load(open(vlib.VERIF + "/tools/sigfam.json"))
-    res.cov["rule"] = (f"real: will_return_boolean on every member of the {len(fam)}-type family (accepted iff the top-level return type is bool: includes fn() -> fn() -> bool, *const bool, Option<bool>, fn(fn(u8) -> bool) -> bool, unsafe/extern bool functions), refusal must be the boolean-gate panic with the target untouched; "
+    res.cov["rule"] = (f"real: will_return_boolean on every member of the {len(fam)}-type family (accepted iff the top-level return type is bool: includes fn() -> fn() -> bool, *const bool, Option<bool>, fn(fn(u8) -> bool) -> bool, unsafe/extern bool functions), refusal must be the boolean-gate panic with the target untouched, whether attempted on an ordinary thread or from a destructor running while the thread unwinds from an earlier panic; "
                        "the assembly caller of C13 with the target forced to true/false: AL is the value, RSP and the six callee-saved registers are as before the call, for many register patterns; the forced-boolean history kind of C02 (calls return the value whatever the argument); "
                        "sim: stub bytes of x86-64 / AArch64 for both values executed with the extracted semantics; distinct = distinct (type feature, outcome) / (value, pattern class)")
     res.cov["trusted_base"] = vlib.TRUSTED_COMMON + ["L0 x86-64 and A64 fragments", "the compact type syntax parser and renderer in extract/driver.ml", "harness/real abi.rs"]
@@ -18,24 +18,26 @@ def run(res, tier, seed, replay):
     O = c09.observe(res)
     if not O: return
     M = vlib.run_model([f"b{i} boolgate {m['compact']}" for i, m in enumerate(fam)])
-    row = O["misc"].get("BOOLGATE", "")
-    distinct = set()
-    for i, m in enumerate(fam):
-        got = row[i] if i < len(row) else "?"
-        want = "A" if m["returns_bool"] else "B"
-        model = M.get(f"b{i}", "?").split()[0]
-        case = dict(type=m["rust"])
-        distinct.add((m["feature"], got))
-        if model != want: res.corr_diffs.append(dict(case=case, model=M.get(f"b{i}"), expected_by_type=want))
-        if got == "M": res.violation("a refused forced-boolean installation modified the target", case, got)
-        elif got != want:
-            res.violation(("will_return_boolean ACCEPTED a function whose return type is not bool" if got == "A" else f"will_return_boolean on a bool function gave {got}"), case, f"observed {got}, expected {want}")
-    for key in ("BOOLGATE_UNCHECKED", "BOOLGATE_UNCHECKED_SAFEFORM"):
-        rowu = O["misc"].get(key, "")
+    for ctx in c09.CONTEXTS:
+        row = O["misc"].get("BOOLGATE" + ctx, "")
+        distinct = set()
         for i, m in enumerate(fam):
-            got = rowu[i] if i < len(rowu) else "?"
-            if got != "B": res.violation("will_return_boolean on a target from the unchecked macros (empty signature) was not refused with the boolean-gate panic" + (" although the function does not return bool" if not m["returns_bool"] else ""), dict(type=m["rust"], form=key), got)
-    res.cov["evaluations"] += 3 * len(fam); res.cov["distinct_nontrivial"] += len(distinct)
+            got = row[i] if i < len(row) else "?"
+            want = "A" if m["returns_bool"] else "B"
+            model = M.get(f"b{i}", "?").split()[0]
+            case = dict(type=m["rust"], context=ctx or "ordinary")
+            distinct.add((m["feature"], got))
+            if model != want: res.corr_diffs.append(dict(case=case, model=M.get(f"b{i}"), expected_by_type=want))
+            if got == "M": res.violation("a refused forced-boolean installation modified the target", case, got)
+            elif got != want:
+                res.violation(("will_return_boolean ACCEPTED a function whose return type is not bool" if got == "A" else f"will_return_boolean on a bool function gave {got}"), case, f"observed {got}, expected {want}")
+        for key in ("BOOLGATE_UNCHECKED" + ctx, "BOOLGATE_UNCHECKED_SAFEFORM" + ctx):
+            rowu = O["misc"].get(key, "")
+            for i, m in enumerate(fam):
+                got = rowu[i] if i < len(rowu) else "?"
+                if got != "B": res.violation("will_return_boolean on a target from the unchecked macros (empty signature) was not refused with the boolean-gate panic" + (" although the function does not return bool" if not m["returns_bool"] else ""), dict(type=m["rust"], form=key), got)
+    row = O['misc'].get('BOOLGATE', '')
+    res.cov["evaluations"] += 6 * len(fam); res.cov["distinct_nontrivial"] += len(distinct)
     # the stub on the real CPU
     exe = reallib.build(res)
     n = 64 if tier == "quick" else 4096
